@@ -9,18 +9,7 @@ import Mathlib.Tactic.SplitIfs
 namespace Retro.Buf
 open Retro
 
-/-! ### u32 arithmetic -/
-
-theorem mulAddU32_ok {a b c : Nat} (h : a * b + c < 4294967296) :
-    mulAddU32 a b c = .ok (a * b + c) := by
-  have : a * b < 4294967296 := by omega
-  simp [mulAddU32, mulU32, addU32, this, h]
-
-theorem mulAddU32_panic {a b c : Nat} (h : ¬ a * b + c < 4294967296) :
-    ∃ m, mulAddU32 a b c = .panic m := by
-  by_cases hm : a * b < 4294967296
-  · exact ⟨"attempt to add with overflow", by simp [mulAddU32, mulU32, addU32, hm, h]⟩
-  · exact ⟨"attempt to multiply with overflow", by simp [mulAddU32, mulU32, hm]⟩
+/-! ### Arithmetic -/
 
 /-- A cell `(x, y)` of a `w × h` window with pitch `s ≥ w` lies strictly before the end of the last row. -/
 theorem cell_lt {x y w h s : Nat} (hx : x < w) (hy : y < h) :
@@ -31,9 +20,10 @@ theorem cell_lt {x y w h s : Nat} (hx : x < w) (hy : y < h) :
 /-! ### The invariant `Inner::new` establishes -/
 
 /-- The arithmetic content of the four assertions of `Inner::new` (see `innerNew_ok_iff`):
-rows do not overlap, the last row ends inside the data, and that end is representable in `u32`. -/
+rows do not overlap and the last row ends inside the data. No representability side condition:
+the size is computed in `usize` (buf.rs:497), so this holds in the release profile too. -/
 def Fits (w h stride len : Nat) : Prop :=
-  w ≤ stride ∧ (h = 0 ∨ ((h - 1) * stride + w ≤ len ∧ (h - 1) * stride + w < 4294967296))
+  w ≤ stride ∧ (h = 0 ∨ (h - 1) * stride + w ≤ len)
 
 instance (w h stride len : Nat) : Decidable (Fits w h stride len) := by unfold Fits; infer_instance
 
@@ -57,15 +47,11 @@ theorem innerNew_ok_iff (w h s len : Nat) : innerNew w h s len = .ok () ↔ Fits
         rcases Nat.eq_zero_or_pos w with hw | hw
         · left; exact hw
         · right; exact Nat.le_mul_of_pos_right (h - 1) (by omega)
-      by_cases ha : (h - 1) * s + w < 4294967296
-      · by_cases hs : (h - 1) * s + w ≤ len
-        · have c2 : h ≤ 1 ∨ s ≤ len := by omega
-          have c3 : w = 0 ∨ h ≤ len := by omega
-          simp [innerNew, mulAddU32_ok ha, h1, hpos, hs, c2, c3, h0, ha]
-        · simp only [innerNew, mulAddU32_ok ha, h1, hpos, hs, h0]
-          split_ifs <;> simp_all
-      · obtain ⟨m, hm⟩ := mulAddU32_panic ha
-        simp only [innerNew, hm, h1, hpos, h0, ha]
+      by_cases hs : (h - 1) * s + w ≤ len
+      · have c2 : h ≤ 1 ∨ s ≤ len := by omega
+        have c3 : w = 0 ∨ h ≤ len := by omega
+        simp [innerNew, h1, hpos, hs, c2, c3, h0]
+      · simp only [innerNew, h1, hpos, hs, h0]
         split_ifs <;> simp_all
   · simp [innerNew, h1]
 
@@ -74,14 +60,14 @@ theorem innerNew_cases (w h s len : Nat) : innerNew w h s len = .ok () ∨ ∃ m
   | ok u => left; rfl
   | panic m => right; exact ⟨m, rfl⟩
 
-/-- In-bounds coordinates of a view that `Fits` index inside its data, without `u32` overflow. -/
+/-- In-bounds coordinates of a view that `Fits` index inside its data. -/
 theorem toIndex_inside {v : View} (hf : Fits v.w v.h v.stride v.len) {x y : Nat} (hx : x < v.w) (hy : y < v.h) :
     toIndex v x y = .ok (y * v.stride + x) ∧ y * v.stride + x < v.len := by
   obtain ⟨_, h2⟩ := hf
   have hc := cell_lt (s := v.stride) hx hy
-  rcases h2 with h0 | ⟨h3, h4⟩
+  rcases h2 with h0 | h3
   · omega
-  · exact ⟨mulAddU32_ok (by omega), by omega⟩
+  · exact ⟨rfl, by omega⟩
 
 /-! ### `viewData` -/
 
